@@ -10,7 +10,9 @@ RULE = ("E1: SumdbClient with several threads and clients, every separately atom
         "(sync.Once initialisation, record-cache claim/wait, cache and network reads, snapshot of the in-memory head, compare-and-set "
         "install with retry, configuration read and compare-and-swap write with retry, checkRecord snapshot, cache write), an honest "
         "server whose signed head grows while lookups are in flight: all interleavings of 1x2, 2x1 (quick) and 2x2, 1x3, 3x1 (thorough) "
-        "threads with invariants ResultAuthentic, HonestLive, FetchExclusive, SkipSilentState, QuiescentConfig, ConfigChain, MemChain. "
+        "threads with invariants ResultAuthentic, HonestLive, FetchExclusive, SkipSilentState, QuiescentConfig, ConfigChain, MemChain; "
+        "LatestMerge (the head-merging core alone, integers only) proved by TLAPS for any number of goroutines and confirmed by Apalache as an "
+        "inductive invariant over unbounded integers: neither the in-memory nor the stored head moves backwards. "
         "E2: schedules drawn by TLC -simulate are replayed deterministically into the real client: every ClientOps call and every verif "
         "hook point is a gate, the scheduler releases exactly the goroutine the model's next step names (thread identity by goroutine id) "
         "and waits for quiescence (runtime.Stack polling). E3: 8-64 goroutines x 1-3 clients against the repository's Server/TestServer "
@@ -37,6 +39,10 @@ def run(ctx):
     q = ctx.quick()
     # E1: exhaustive interleavings
     sumdbmc.run_configs(ctx, sumdbmc.c14_mc_configs(ctx.tier), workers_each=5 if q else 8, parallel=3 if q else 2, timeout=3400, label="C14mc")
+    # unbounded: the merge of tree heads for any number of goroutines and heads of any size (TLAPS, Apalache, TLC on small constants)
+    ctx.prove("LatestMerge", apalache_args=["--cinit=CInit", "--init=IndInit", "--inv=IndInv", "--next=Next", "--length=1"])
+    if not q:
+        ctx.tlc("LatestMerge", "LatestMerge", workers=8, timeout=1800, name="LatestMerge(3 threads, heads 0..3)")
     # E2: simulated schedules replayed deterministically
     nsim = 80 if q else 2500
     out, res = sumdbmc.run_configs(ctx, sumdbmc.c14_sim_configs(ctx.tier), workers_each=1, parallel=4, timeout=3000, label="C14sim",
